@@ -27,6 +27,17 @@
     added frames): this is what the correspondence check compares with the trace hook of the
     real pdr.rs.
 
+    FAULTS (property C15).  The oracle may also answer [AErr e] (the solver reported an error, died,
+    wrote garbage: whatever makes the SolverContext method return [Err]) or [AUnknown] at ANY query;
+    the commands that carry no answer (declare-const / assert / define: every one of them is followed
+    by `?` in pdr.rs) may fail too: [cmd_fail : nat -> option EM] says whether the n-th command of the
+    run fails; the BMC fallback (restart + bmc, both with `?`) may fail with [BmcErr e].  The model
+    does exactly what pdr.rs does: `?` returns the error at once, [CheckSatResponse::Unknown] is
+    handled site by site (get_bad_cube, init_steps_into and block_cube return an error; the pushing
+    loop and propagate_blocked_cubes treat it like "not unsat" and go on).  An [Err] carries the event
+    log at the moment of the error, so that "the first error is the one that is returned" can be
+    stated.
+
     Executable definitions only; proofs in Proofs/PdrImplProofs.v. *)
 From Coq Require Import List Bool Arith.
 From Patronus Require Import Ic3.
@@ -38,6 +49,7 @@ Section PdrImpl.
   Variable St : Type.                          (* valuations of the state symbols *)
   Variable cube_of_state : St -> list lit.     (* [get_bit_level_cube]: the full bit-level cube of a state *)
   Variable W : Type.                           (* witnesses produced by the BMC fallback *)
+  Variable EM : Type.                          (* error messages of the solver context *)
 
   Definition ccube : Type := list lit.
 
@@ -66,34 +78,40 @@ Section PdrImpl.
   Inductive answer : Type :=
   | ASat (m : St)
   | AUnsat (core : list lit)
-  | AUnknown.
+  | AUnknown
+  | AErr (e : EM).              (* the SolverContext method returned Err (check, get-value or get-unsat-assumptions) *)
 
   Variable solve : nat -> query -> answer.
+  Variable cmd_fail : nat -> option EM.        (* does the n-th declare/assert/define command of the run fail? *)
+  Variable n_init : nat.                       (* commands issued before the main loop (set-logic, encoding, BasePdr::init) *)
   Variable gen_on : bool.                      (* not disable_unsat_cores *)
   Variable has_bads : bool.                    (* sys.bad_states is not empty *)
 
-  Inductive bmc_answer : Type := BmcFail (w : W) | BmcOther.
+  Inductive bmc_answer : Type := BmcFail (w : W) | BmcOther | BmcErr (e : EM).
   Variable bmc_result : bmc_answer.            (* bmc(.., k_max = MAX_FRAMES) after the restart *)
 
   Definition MAX_FRAMES : nat := 1000.
 
   Inductive err : Type :=
   | EUnknown (k : qkind)        (* UnexpectedResponse "unknown query" *)
-  | EOrigCube.                  (* "original cube is reachable from init in one step" *)
+  | EOrigCube                   (* "original cube is reachable from init in one step" *)
+  | ESolver (e : EM).           (* an error of the solver context, propagated with `?` *)
+
+  Inductive event : Type :=
+  | EvQuery (q : query) (a : answer)
+  | EvBlock (f : frame_id) (c : ccube)
+  | EvAddFrame (act : nat)      (* the id of the frame's activation literal *)
+  | EvCmdFail (idx : nat) (e : EM)
+  | EvBmcErr (e : EM).
 
   Inductive res (A : Type) : Type :=
   | Ok (a : A)
-  | Err (e : err)
+  | Err (e : err) (log : list event)   (* the log at the moment of the error, newest first *)
   | Panic (code : nat)          (* a Rust panic: 1 decrement, 2 increment, 3 frame index, 4 assert in fix_gen_cube *)
   | Fuel.                       (* the model's own fuel ran out *)
   Arguments Ok {A}. Arguments Err {A}. Arguments Panic {A}. Arguments Fuel {A}.
 
   Inductive verdict : Type := VSuccess | VFail (w : W) | VUnknown.
-
-  Inductive event : Type :=
-  | EvQuery (q : query) (a : answer)
-  | EvBlock (f : frame_id) (c : ccube)
-  | EvAddFrame (act : nat).     (* the id of the frame's activation literal *)
 
   Record pst : Type := {
     p_frames : list (list ccube);              (* Frame.cubes of the finite frames 1 .. frontier *)
@@ -101,11 +119,12 @@ Section PdrImpl.
     p_asserted : list (frame_id * ccube);      (* act_f => not c, permanently asserted *)
     p_next_act : nat;                          (* next_act_id *)
     p_q : nat;                                 (* number of queries so far *)
+    p_c : nat;                                 (* number of declare/assert/define commands so far *)
     p_log : list event                         (* newest first *)
   }.
 
   Definition init_state : pst :=
-    {| p_frames := []; p_inf := []; p_asserted := []; p_next_act := 0; p_q := 0; p_log := [] |}.
+    {| p_frames := []; p_inf := []; p_asserted := []; p_next_act := 0; p_q := 0; p_c := 0; p_log := [] |}.
 
   (** ** FrameId *)
   Definition fid_key (f : frame_id) : nat :=
@@ -158,13 +177,30 @@ Section PdrImpl.
   Definition ask (st : pst) (q : query) : answer * pst :=
     let a := solve (p_q st) q in
     (a, {| p_frames := p_frames st; p_inf := p_inf st; p_asserted := p_asserted st;
-           p_next_act := p_next_act st; p_q := S (p_q st); p_log := EvQuery q a :: p_log st |}).
+           p_next_act := p_next_act st; p_q := S (p_q st); p_c := p_c st; p_log := EvQuery q a :: p_log st |}).
 
   Definition new_acts (st : pst) (n : nat) : pst :=
     {| p_frames := p_frames st; p_inf := p_inf st; p_asserted := p_asserted st;
-       p_next_act := n + p_next_act st; p_q := p_q st; p_log := p_log st |}.
+       p_next_act := n + p_next_act st; p_q := p_q st; p_c := p_c st; p_log := p_log st |}.
 
   Definition lit_mem (l : lit) (core : list lit) : bool := existsb (lit_eqb l) core.
+
+  (** a block of [n] declare/assert/define commands, each followed by `?` *)
+  Definition tick (st : pst) : pst :=
+    {| p_frames := p_frames st; p_inf := p_inf st; p_asserted := p_asserted st;
+       p_next_act := p_next_act st; p_q := p_q st; p_c := S (p_c st); p_log := p_log st |}.
+
+  Fixpoint cmds (n : nat) (st : pst) : res pst :=
+    match n with
+    | O => Ok st
+    | S n' =>
+        match cmd_fail (p_c st) with
+        | Some e => Err (ESolver e) (EvCmdFail (p_c st) e :: p_log st)
+        | None => cmds n' (tick st)
+        end
+    end.
+
+  Definition fail {A} (e : err) (st : pst) : res A := Err e (p_log st).
 
   (** ** get_bad_cube *)
   Definition get_bad_cube (st : pst) : res (option ccube * pst) :=
@@ -176,7 +212,8 @@ Section PdrImpl.
         match a with
         | ASat m => Ok (Some (cube_of_state m), st1)
         | AUnsat _ => Ok (None, st1)
-        | AUnknown => Err (EUnknown KBad)
+        | AUnknown => fail (EUnknown KBad) st1
+        | AErr e => fail (ESolver e) st1
         end
     end.
 
@@ -191,21 +228,53 @@ Section PdrImpl.
     | S fuel' =>
         let '(a, st1) := ask st (init_query KGenFix gen lm true) in
         match a with
-        | AUnknown => Err (EUnknown KGenFix)
-        | ASat _ => if first then Err EOrigCube else Panic 4
+        | AErr e => fail (ESolver e) st1
+        | AUnknown => fail (EUnknown KGenFix) st1
+        | ASat _ =>
+            if first then
+              (* "Clean up activation literals" (each assert with `?`), then the error *)
+              match cmds (length lm) st1 with
+              | Ok st2 => fail EOrigCube st2
+              | Err e l => Err e l
+              | Panic n => Panic n
+              | Fuel => Fuel
+              end
+            else Panic 4
         | AUnsat core =>
             let lm' := filter (fun l => lit_mem l core) lm in
-            if length lm' =? length lm then Ok (gen ++ lm', st1)
-            else fix_loop fuel' st1 gen lm' false
+            (* "Permanently disable literals that were removed" *)
+            match cmds (length lm - length lm') st1 with
+            | Ok st2 =>
+                if length lm' =? length lm then
+                  (* fixpoint: clean up the remaining activation literals *)
+                  match cmds (length lm') st2 with
+                  | Ok st3 => Ok (gen ++ lm', st3)
+                  | Err e l => Err e l
+                  | Panic n => Panic n
+                  | Fuel => Fuel
+                  end
+                else fix_loop fuel' st2 gen lm' false
+            | Err e l => Err e l
+            | Panic n => Panic n
+            | Fuel => Fuel
+            end
         end
     end.
 
   Definition fix_gen_cube (st : pst) (gen rm : ccube) : res (ccube * pst) :=
     let '(a, st1) := ask st (init_query KGenCheck gen [] false) in
     match a with
-    | AUnknown => Err (EUnknown KGenCheck)
+    | AErr e => fail (ESolver e) st1
+    | AUnknown => fail (EUnknown KGenCheck) st1
     | AUnsat _ => Ok (gen, st1)
-    | ASat _ => fix_loop (S (length rm)) (new_acts st1 (length rm)) gen rm true
+    | ASat _ =>
+        (* one activation literal (declare + assert) per removed literal *)
+        match cmds (2 * length rm) (new_acts st1 (length rm)) with
+        | Ok st2 => fix_loop (S (length rm)) st2 gen rm true
+        | Err e l => Err e l
+        | Panic n => Panic n
+        | Fuel => Fuel
+        end
     end.
 
   (** ** rel_ind *)
@@ -221,31 +290,55 @@ Section PdrImpl.
         match from_of st prev with
         | None => Panic 3
         | Some from =>
-            let neg := if extended && negb (is_init prev) then Some c else None in
-            let '(a, st1) := ask (new_acts st (length c))
-                                 {| q_kind := KRelInd; q_frame := prev; q_from := from; q_bad := false;
-                                    q_neg := neg; q_fixed := []; q_sel := c; q_core := gen_on |} in
-            match a with
-            | ASat m => Ok (RSat (cube_of_state m), st1)
-            | AUnknown => Ok (RUnknown, st1)
-            | AUnsat core =>
-                if gen_on then
-                  match fix_gen_cube st1 (filter (fun l => lit_mem l core) c)
-                                         (filter (fun l => negb (lit_mem l core)) c) with
-                  | Ok (fx, st2) => Ok (RUnsat (Some fx), st2)
-                  | Err e => Err e
+            (* one activation literal (declare + assert) per literal of the cube *)
+            match cmds (2 * length c) (new_acts st (length c)) with
+            | Err e l => Err e l
+            | Panic n => Panic n
+            | Fuel => Fuel
+            | Ok st0 =>
+                let neg := if extended && negb (is_init prev) then Some c else None in
+                let '(a, st1) := ask st0
+                                     {| q_kind := KRelInd; q_frame := prev; q_from := from; q_bad := false;
+                                        q_neg := neg; q_fixed := []; q_sel := c; q_core := gen_on |} in
+                (* "Disable all created activation literals as cleanup" *)
+                let finish (r : rel_result) (st2 : pst) : res (rel_result * pst) :=
+                  match cmds (length c) st2 with
+                  | Ok st3 => Ok (r, st3)
+                  | Err e l => Err e l
                   | Panic n => Panic n
                   | Fuel => Fuel
-                  end
-                else Ok (RUnsat None, st1)
+                  end in
+                match a with
+                | AErr e => fail (ESolver e) st1
+                | ASat m => finish (RSat (cube_of_state m)) st1
+                | AUnknown => finish RUnknown st1
+                | AUnsat core =>
+                    if gen_on then
+                      match fix_gen_cube st1 (filter (fun l => lit_mem l core) c)
+                                             (filter (fun l => negb (lit_mem l core)) c) with
+                      | Ok (fx, st2) => finish (RUnsat (Some fx)) st2
+                      | Err e l => Err e l
+                      | Panic n => Panic n
+                      | Fuel => Fuel
+                      end
+                    else finish (RUnsat None) st1
+                end
             end
         end
     end.
 
   (** ** add_frame / add_blocked_cube *)
-  Definition add_frame (st : pst) : pst :=
-    {| p_frames := p_frames st ++ [[]]; p_inf := p_inf st; p_asserted := p_asserted st;
-       p_next_act := S (p_next_act st); p_q := p_q st; p_log := EvAddFrame (p_next_act st) :: p_log st |}.
+  Definition add_frame (st : pst) : res pst :=
+    (* create_act_lit: declare-const *)
+    match cmds 1 st with
+    | Ok st1 =>
+        Ok {| p_frames := p_frames st1 ++ [[]]; p_inf := p_inf st1; p_asserted := p_asserted st1;
+              p_next_act := S (p_next_act st1); p_q := p_q st1; p_c := p_c st1;
+              p_log := EvAddFrame (p_next_act st1) :: p_log st1 |}
+    | Err e l => Err e l
+    | Panic n => Panic n
+    | Fuel => Fuel
+    end.
 
   (** add [c] at the END of the list at (1-based) position [k] ([Vec::push]) *)
   Fixpoint push_at (k : nat) (c : ccube) (fs : list (list ccube)) : option (list (list ccube)) :=
@@ -256,17 +349,31 @@ Section PdrImpl.
     | S k', f :: r => match push_at k' c r with Some r' => Some (f :: r') | None => None end
     end.
 
-  Definition add_blocked_cube (st : pst) (c : ccube) (f : frame_id) : option pst :=
+  (** the bookkeeping part of add_blocked_cube ([None] = index out of bounds) *)
+  Definition record_cube (st : pst) (c : ccube) (f : frame_id) : option pst :=
     match f with
     | FInit => None
     | FFinite k =>
         match push_at k c (p_frames st) with
         | Some fs => Some {| p_frames := fs; p_inf := p_inf st; p_asserted := (f, c) :: p_asserted st;
-                             p_next_act := p_next_act st; p_q := p_q st; p_log := EvBlock f c :: p_log st |}
+                             p_next_act := p_next_act st; p_q := p_q st; p_c := p_c st; p_log := EvBlock f c :: p_log st |}
         | None => None
         end
     | FInf => Some {| p_frames := p_frames st; p_inf := p_inf st ++ [c]; p_asserted := (f, c) :: p_asserted st;
-                      p_next_act := p_next_act st; p_q := p_q st; p_log := EvBlock f c :: p_log st |}
+                      p_next_act := p_next_act st; p_q := p_q st; p_c := p_c st; p_log := EvBlock f c :: p_log st |}
+    end.
+
+  (** add_blocked_cube: index the frame (panic if impossible), assert the clause (`?`), push the cube *)
+  Definition add_blocked_cube (st : pst) (c : ccube) (f : frame_id) : res pst :=
+    match record_cube st c f with
+    | None => Panic 3
+    | Some _ =>
+        match cmds 1 st with
+        | Ok st1 => match record_cube st1 c f with Some st2 => Ok st2 | None => Panic 3 end
+        | Err e l => Err e l
+        | Panic n => Panic n
+        | Fuel => Fuel
+        end
     end.
 
   (** ** block_cube *)
@@ -297,7 +404,7 @@ Section PdrImpl.
               | None => Panic 2
               end
           | Ok (_, st1) => Ok (f, st1)
-          | Err e => Err e
+          | Err e l => Err e l
           | Panic n => Panic n
           | Fuel => Fuel
           end
@@ -330,17 +437,19 @@ Section PdrImpl.
                           | None => Panic 1
                           | Some bf =>
                               match add_blocked_cube st2 cand bf with
-                              | Some st3 => block_loop fuel' st3 rest
-                              | None => Panic 3
+                              | Ok st3 => block_loop fuel' st3 rest
+                              | Err e l => Err e l
+                              | Panic n => Panic n
+                              | Fuel => Fuel
                               end
                           end
-                      | Err e => Err e
+                      | Err e l => Err e l
                       | Panic n => Panic n
                       | Fuel => Fuel
                       end
                   end
-              | Ok (RUnknown, _) => Err (EUnknown KRelInd)
-              | Err e => Err e
+              | Ok (RUnknown, st1) => fail (EUnknown KRelInd) st1
+              | Err e l => Err e l
               | Panic n => Panic n
               | Fuel => Fuel
               end
@@ -361,7 +470,7 @@ Section PdrImpl.
 
   Definition set_frame (st : pst) (k : nat) (cs : list ccube) : pst :=
     {| p_frames := set_nth k cs (p_frames st); p_inf := p_inf st; p_asserted := p_asserted st;
-       p_next_act := p_next_act st; p_q := p_q st; p_log := p_log st |}.
+       p_next_act := p_next_act st; p_q := p_q st; p_c := p_c st; p_log := p_log st |}.
 
   Definition frame_cubes (st : pst) (k : nat) : list ccube := nth (pred k) (p_frames st) [].
 
@@ -375,30 +484,40 @@ Section PdrImpl.
         match rel_ind st c (FFinite (S id)) false with
         | Ok (RUnsat _, st1) =>
             match add_blocked_cube st1 c (FFinite (S id)) with
-            | Some st2 => prop_cubes st2 id r
-            | None => Panic 3
+            | Ok st2 => prop_cubes st2 id r
+            | Err e l => Err e l
+            | Panic n => Panic n
+            | Fuel => Fuel
             end
         | Ok (_, st1) => prop_cubes (keep_cube st1 id c) id r
-        | Err e => Err e
+        | Err e l => Err e l
         | Panic n => Panic n
         | Fuel => Fuel
         end
     end.
 
   (** "Add all learned invariants to infinite frame" (frames id+1 .. frontier) *)
-  Fixpoint to_inf (st : pst) (cs : list ccube) : option pst :=
+  Fixpoint to_inf (st : pst) (cs : list ccube) : res pst :=
     match cs with
-    | [] => Some st
-    | c :: r => match add_blocked_cube st c FInf with Some st1 => to_inf st1 r | None => None end
+    | [] => Ok st
+    | c :: r =>
+        match add_blocked_cube st c FInf with
+        | Ok st1 => to_inf st1 r
+        | Err e l => Err e l
+        | Panic n => Panic n
+        | Fuel => Fuel
+        end
     end.
 
-  Fixpoint cleanup (n : nat) (st : pst) (iid : nat) : option pst :=    (* n frames starting at iid *)
+  Fixpoint cleanup (n : nat) (st : pst) (iid : nat) : res pst :=    (* n frames starting at iid *)
     match n with
-    | O => Some st
+    | O => Ok st
     | S n' =>
         match to_inf (set_frame st iid []) (frame_cubes st iid) with
-        | Some st1 => cleanup n' st1 (S iid)
-        | None => None
+        | Ok st1 => cleanup n' st1 (S iid)
+        | Err e l => Err e l
+        | Panic n => Panic n
+        | Fuel => Fuel
         end
     end.
 
@@ -412,12 +531,14 @@ Section PdrImpl.
             match frame_cubes st1 id with
             | [] =>
                 match cleanup (frontier st1 - id) st1 (S id) with
-                | Some st2 => Ok (true, st2)
-                | None => Panic 3
+                | Ok st2 => Ok (true, st2)
+                | Err e l => Err e l
+                | Panic n => Panic n
+                | Fuel => Fuel
                 end
             | _ => prop_frames n' st1 (S id)
             end
-        | Err e => Err e
+        | Err e l => Err e l
         | Panic n => Panic n
         | Fuel => Fuel
         end
@@ -430,10 +551,13 @@ Section PdrImpl.
         let '(a, st1) := ask st {| q_kind := KInf; q_frame := FInf; q_from := FromClauses (clauses_inf st);
                                    q_bad := false; q_neg := Some c; q_fixed := c; q_sel := []; q_core := false |} in
         match a with
+        | AErr e => fail (ESolver e) st1
         | AUnsat _ =>
             match add_blocked_cube st1 c FInf with
-            | Some st2 => prop_last st2 front r
-            | None => Panic 3
+            | Ok st2 => prop_last st2 front r
+            | Err e l => Err e l
+            | Panic n => Panic n
+            | Fuel => Fuel
             end
         | _ => prop_last (keep_cube st1 front c) front r
         end
@@ -446,11 +570,11 @@ Section PdrImpl.
     | Ok (false, st1) =>
         match prop_last (set_frame st1 front []) front (frame_cubes st1 front) with
         | Ok st2 => Ok (false, st2)
-        | Err e => Err e
+        | Err e l => Err e l
         | Panic n => Panic n
         | Fuel => Fuel
         end
-    | Err e => Err e
+    | Err e l => Err e l
     | Panic n => Panic n
     | Fuel => Fuel
     end.
@@ -466,23 +590,31 @@ Section PdrImpl.
               match block_cube block_fuel st1 b (frontier_id st1) with
               | Ok (true, st2) => pdr_loop fuel' block_fuel st2
               | Ok (false, st2) =>
+                  (* smt_ctx.restart()?; bmc(..)? *)
                   match bmc_result with
                   | BmcFail w => Ok (VFail w, st2)
                   | BmcOther => Ok (VUnknown, st2)
+                  | BmcErr e => Err (ESolver e) (EvBmcErr e :: p_log st2)
                   end
-              | Err e => Err e
+              | Err e l => Err e l
               | Panic n => Panic n
               | Fuel => Fuel
               end
           | Ok (None, st1) =>
-              match propagate_blocked_cubes (add_frame st1) with
-              | Ok (true, st2) => Ok (VSuccess, st2)
-              | Ok (false, st2) => pdr_loop fuel' block_fuel st2
-              | Err e => Err e
+              match add_frame st1 with
+              | Ok sta =>
+                  match propagate_blocked_cubes sta with
+                  | Ok (true, st2) => Ok (VSuccess, st2)
+                  | Ok (false, st2) => pdr_loop fuel' block_fuel st2
+                  | Err e l => Err e l
+                  | Panic n => Panic n
+                  | Fuel => Fuel
+                  end
+              | Err e l => Err e l
               | Panic n => Panic n
               | Fuel => Fuel
               end
-          | Err e => Err e
+          | Err e l => Err e l
           | Panic n => Panic n
           | Fuel => Fuel
           end
@@ -490,7 +622,15 @@ Section PdrImpl.
     end.
 
   Definition pdr (fuel block_fuel : nat) : res (verdict * pst) :=
-    if has_bads then pdr_loop fuel block_fuel init_state else Ok (VSuccess, init_state).
+    if has_bads then
+      (* set-logic, the encoding's init_at/unroll, BasePdr::init: each command with `?` *)
+      match cmds n_init init_state with
+      | Ok st0 => pdr_loop fuel block_fuel st0
+      | Err e l => Err e l
+      | Panic n => Panic n
+      | Fuel => Fuel
+      end
+    else Ok (VSuccess, init_state).
 End PdrImpl.
 
 (** ** an exhaustive-search oracle over an explicitly listed state space (for Examples: it shows
@@ -499,6 +639,7 @@ End PdrImpl.
 Section EnumOracle.
   Variable lit : Type.
   Variable St : Type.
+  Variable EM : Type.
   Variable lit_holds : lit -> St -> bool.
   Variable bad0 : St -> bool.
   Variable step0 trans : St -> St -> bool.
@@ -518,10 +659,26 @@ Section EnumOracle.
     end.
 
   (** the first model in the list, or "unsat" with the full core *)
-  Definition enum_solve (n : nat) (q : query lit) : answer lit St :=
+  Definition enum_solve (n : nat) (q : query lit) : answer lit St EM :=
     match find (enum_ok q) states with
-    | Some m => ASat lit St m
-    | None => AUnsat lit St (q_sel lit q)
+    | Some m => ASat lit St EM m
+    | None => AUnsat lit St EM (q_sel lit q)
+    end.
+
+  (** an executable test of the oracle hypothesis ([truthful] of Proofs/PdrImplProofs.v) for ONE
+      recorded answer: a model must satisfy the query; "unsat" must be right for the query restricted
+      to the literals the core selects.  The driver applies it to the answers of the real solver. *)
+  Variable lit_eqb : lit -> lit -> bool.
+  Definition restrict_q (q : query lit) (core : list lit) : query lit :=
+    {| q_kind := q_kind lit q; q_frame := q_frame lit q; q_from := q_from lit q; q_bad := q_bad lit q;
+       q_neg := q_neg lit q; q_fixed := q_fixed lit q;
+       q_sel := filter (fun l => existsb (lit_eqb l) core) (q_sel lit q); q_core := q_core lit q |}.
+  Definition answer_ok (q : query lit) (a : answer lit St EM) : bool :=
+    match a with
+    | ASat _ _ _ m => enum_ok q m
+    | AUnsat _ _ _ core => negb (existsb (enum_ok (if q_core lit q then restrict_q q core else q)) states)
+    | AUnknown _ _ _ => true
+    | AErr _ _ _ _ => true
     end.
 End EnumOracle.
 
